@@ -94,7 +94,7 @@ ObsInit(CS) ==
     qReq   |-> FALSE,      \* a quarantine verdict was returned during an accepted command
     qAny   |-> FALSE,      \* a quarantine verdict was returned at all
     tF     |-> FALSE,      \* some target saw Quarantine = FALSE at body / commit
-    dead   |-> FALSE,      \* the message was refused as a whole (sender or body stage)
+    dead   |-> FALSE,      \* the message was refused as a whole by a check (sender or body stage)
     extra  |-> FALSE,      \* some check was shown a recipient outside its scope (reported only)
     viol   |-> {} ]
 
@@ -183,7 +183,7 @@ ObsRet(o, c, op, r, res) ==
                 !.refR = IF ~acc /\ op = "rcpt" THEN @ \cup {r} ELSE @,
                 !.touchR = IF ~acc /\ op = "rcpt" /\ o.modCur /\ ~o.rejCur THEN @ \cup {r} ELSE @,
                 !.qReq = @ \/ (acc /\ o.qCur),
-                !.dead = @ \/ (~acc /\ op \in {"start", "body"}),
+                !.dead = @ \/ (~acc /\ op \in {"start", "body"} /\ o.rejCur),
                 !.rejCur = FALSE, !.qCur = FALSE, !.modCur = FALSE]
 
 ObsEnd(o, c) == V(o, ~(o.qReq /\ o.tF), "QuarantineNotSeen")
